@@ -183,3 +183,24 @@ def wellScopedDefs (n : Nat) : Defs → Bool
   | .nil => true
   | .cons _ a d r => wellScoped n a && wellScoped n d && wellScopedDefs n r
 end
+
+-- `lowFree t c k`: some variable (or hole shift) of `t` lies in `[c, c+k)` — exactly the
+-- occurrences that would become unbound when shifting down by `k` at cutoff `c`.
+mutual
+def lowFree (t : Tm) (c k : Nat) : Bool :=
+  match t with
+  | .var _ i => decide (c ≤ i ∧ i < c + k)
+  | .hole _ s => decide (c ≤ s ∧ s < c + k)
+  | .lam _ _ d b => lowFree d c k || lowFree b (c+1) k
+  | .pi _ _ d b => lowFree d c k || lowFree b (c+1) k
+  | .app f a => lowFree f c k || lowFree a c k
+  | .letg ds b => lowFreeDefs ds (c + ds.len) k || lowFree b (c + ds.len) k
+  | .neg a => lowFree a c k
+  | .bin _ a b => lowFree a c k || lowFree b c k
+  | .ite a b d => lowFree a c k || lowFree b c k || lowFree d c k
+  | _ => false
+def lowFreeDefs (ds : Defs) (c k : Nat) : Bool :=
+  match ds with
+  | .nil => false
+  | .cons _ a d r => lowFree a c k || lowFree d c k || lowFreeDefs r c k
+end
